@@ -296,14 +296,17 @@ def emit(rng, doc, feats):
 def gen_case(rng, ctx):
     for _ in range(50):
         first_run = rng.random() < 0.3
+        # without a file the FIRST load returns the defaults whatever they look like (the user's file sets nothing); only what
+        # LATER loads make of the written file is restricted to one-line values
+        first_only = first_run and rng.random() < 0.3
         dfeats, ufeats = set(), set()
-        if _LAST and rng.random() < 0.35 and (not first_run or _LAST["one_line"]):
+        if _LAST and rng.random() < 0.35 and (not first_run or first_only or _LAST["one_line"]):
             # the SAME default text as in the previous load of this process, with another user file (or none): whatever
             # the library remembers about a default document must not carry one user's values into the next load
             ddoc, dtext = _LAST["ddoc"], _LAST["dtext"]
             dfeats.add("same-defaults-as-previous-load")
         else:
-            ddoc = gen_doc(rng, rng.choice([1, 2, 2, 3]), one_line=first_run)
+            ddoc = gen_doc(rng, rng.choice([1, 2, 2, 3]), one_line=first_run and not first_only)
             dtext = emit(rng, ddoc, dfeats)
             if rng.random() < 0.07:
                 # the defaults as an application writes them: a triple-quoted Python string inside a function, every line
@@ -327,8 +330,9 @@ def gen_case(rng, ctx):
         except tomllib.TOMLDecodeError:
             ctx.count("generator_rejects")
             continue
-        _LAST.update(ddoc=ddoc, dtext=dtext, one_line=first_run or _LAST.get("one_line", False) and dtext == _LAST.get("dtext"))
-        return dict(default=dtext, user=utext, feats=sorted(dfeats | ufeats), app_style=rng.choice([0, 0, 0, 1, 2, 3, 4]))
+        _LAST.update(ddoc=ddoc, dtext=dtext, one_line=(first_run and not first_only) or _LAST.get("one_line", False) and dtext == _LAST.get("dtext"))
+        return dict(default=dtext, user=utext, feats=sorted(dfeats | ufeats), app_style=rng.choice([0, 0, 0, 1, 2, 3, 4]),
+                    first_only=first_only)
     raise RuntimeError("emitter keeps producing invalid TOML")
 
 
@@ -438,6 +442,9 @@ def run_case(case, ctx):
                     break
                 if tag(plain) != tag(D):
                     viols.append(("first-run-not-defaults", f"load #{i + 1}: want={D!r:.300} got={plain!r:.300}"))
+                    break
+                if case.get("first_only"):
+                    ctx.count("first_loads_with_values_on_several_lines")
                     break
                 if not os.path.isfile(path):
                     viols.append(("first-run-no-file-written", path))
